@@ -157,4 +157,34 @@ def vorgTable (typoAsc : Int) (co gs : List G) : Vorg :=
         gs.filterMap (fun g => if vertOrigin typoAsc g == d then none else some (g.name, vertOrigin typoAsc g))
       else [] }
 
+/-! ### CFF advance widths (OutlineOTFCompiler.getCharStringForGlyph / setupTable_CFF)
+
+`d`, `n` = the pair returned by `getDefaultAndNominalWidths` (fontinfo values through `otRound`, or
+`fontTools.cffLib.width.optimizeWidths` of the rounded advances: an external optimiser, hence an input). -/
+
+/-- `getCharStringForGlyph` + `T2CharStringPen.getCharString`: the width operand in front of the charstring
+    program: omitted (`none`) when the UNROUNDED width equals defaultWidthX, else
+    `otRound(otRound(width - nominalWidthX))` (the pen rounds once more) -/
+def csWidth (d n : Int) (w : Q) : Option Int :=
+  if w = (d : Q) then none else some (otRound ((otRound (w - (n : Q)) : Int) : Q))
+
+/-- the two width operators of the CFF Private dict; `none` = operator not written -/
+structure PrivW where
+  defaultWidthX : Option Int
+  nominalWidthX : Option Int
+  deriving DecidableEq, Repr
+
+/-- setupTable_CFF, "populate the width values": two independent `if value:` tests -/
+def privWidths (d n : Int) : PrivW :=
+  { defaultWidthX := if d ≠ 0 then some d else none
+    nominalWidthX := if n ≠ 0 then some n else none }
+
+structure CffW where
+  priv : PrivW
+  cs : List (Option Int)     -- width operand per glyph, glyph order
+  deriving DecidableEq, Repr
+
+def cffWidths (d n : Int) (gs : List G) : CffW :=
+  { priv := privWidths d n, cs := gs.map (fun g => csWidth d n g.width) }
+
 end Ufo2ft.C04
